@@ -199,8 +199,8 @@ fn corpus(i: usize) -> Option<(bool, bool, Vec<Vec<T>>)> {
 }
 
 fn gen_inputs(rng: &mut Rng) -> (Vec<Vec<T>>, &'static str) {
-    let names = rng.range(2, 4) as u8;
-    let depth = rng.range(0, 2) as u32;
+    let names = rng.range(2, 5) as u8;
+    let depth = rng.range(0, 3) as u32;
     let rich = rng.chance(1, 2);
     let base = {
         let mut b = gen_tree(rng, depth, names, rich);
